@@ -92,3 +92,10 @@ func (p *Points) Release(a *Arrival) {
 	}
 	p.mu.Unlock()
 }
+
+// HitCount returns how many times the named point has been reached so far.
+func (p *Points) HitCount(name string) int {
+	p.mu.Lock()
+	defer p.mu.Unlock()
+	return p.Hits[name]
+}
